@@ -15,6 +15,8 @@ package main
 //   facts   the three call sites write only through atomic.WriteFile on a complete buffer; the operation
 //           sequence of the pinned atomic.WriteFile is the model's
 // Every case also evaluates the Lean predicate `allOrNothing` (and `sameNames`) on what the real run left behind.
+// Every run of every stream has bystanders in its directory (entries named after the targets: <target><digits>,
+// <target>.tmp, <target>~, prefixes, hidden names, …) which must be as before afterwards (section "bystanders").
 
 import (
 	"encoding/hex"
@@ -247,8 +249,14 @@ func (c *Ctx) c18Exec(rn c18Run) procResult {
 	if rn.AsNobody {
 		os.Chown(rn.Dir, 65534, 65534)
 	}
+	// bystanders: files, links and directories named after the targets; checked and taken away again after the run (in
+	// the deferred call, once the directory is accessible again), so that the observers below see the directory as before
+	by := c.c18ByPlant(rn)
 	os.Chmod(rn.Dir, dm)
-	defer os.Chmod(rn.Dir, 0o777)
+	defer func() {
+		os.Chmod(rn.Dir, 0o777)
+		c18ByLast = by.verifyAndRemove()
+	}()
 	self, _ := os.Executable()
 	var bin string
 	var args []string
@@ -523,6 +531,7 @@ func (c *Ctx) c18LimitFile(bt *Batch, stream string, fi int, limits []int) {
 		pr := c.c18Exec(c18Run{Dir: dir, Files: files, Modes: modes, Argv: argv, Limit: k})
 		obs := c18Observe(dir, f.Name, originals)
 		in := map[string]any{"argv": argv, "file_kind": f.Kind, "mode": fmt.Sprintf("%o", f.Mode), "RLIMIT_FSIZE": k, "old": string(f.Old), "new_len": len(f.New), "parses": f.New != nil}
+		c.c18ByMonitor(stream, i, in)
 		cut := "fits"
 		if f.New != nil && k < len(f.New) {
 			cut = "cut"
@@ -589,6 +598,7 @@ func (c *Ctx) c18InjectStream() {
 			pr := c.c18Exec(c18Run{Dir: dir, Files: files, Modes: modes, Argv: argv, Limit: -1, Strace: strace})
 			obs := c18Observe(dir, f.Name, originals)
 			in := map[string]any{"argv": argv, "file_kind": f.Kind, "mode": fmt.Sprintf("%o", f.Mode), "strace": strace, "old": string(f.Old), "parses": f.New != nil}
+			c.c18ByMonitor("inject", i, in)
 			c.Class(fmt.Sprintf("inject/%s/%s/exit%v", what, f.Kind, pr.Exit == 0))
 			if i < 2 {
 				c.Sample(map[string]any{"stream": "inject", "strace": strace, "file_kind": f.Kind, "exit": pr.Exit, "stderr": clip(pr.Stderr)})
@@ -677,6 +687,7 @@ func (c *Ctx) c18Perm() {
 			}
 		}
 		in := map[string]any{"argv": []string{"format", f.Name}, "uid": 65534, "dir_mode": fmt.Sprintf("%o", dirMode), "file_mode": fmt.Sprintf("%o", fileMode), "file_kind": kind, "old": string(f.Old)}
+		c.c18ByMonitor("perm", i, in)
 		// the scenario the permissions amount to
 		fault := "-"
 		switch {
@@ -762,6 +773,7 @@ func (c *Ctx) c18PermLimit() {
 			}
 			in := map[string]any{"argv": argv, "uid": 65534, "dir_mode": fmt.Sprintf("%o", dirMode), "file_mode": fmt.Sprintf("%o", f.Mode), "file_kind": f.Kind, "RLIMIT_FSIZE": k,
 				"old": string(f.Old), "new_len": len(f.New)}
+			c.c18ByMonitor("permlimit", i, in)
 			cut := "fits"
 			if f.New != nil && k < len(f.New) {
 				cut = "cut"
@@ -860,6 +872,7 @@ func (c *Ctx) c18Multi() {
 			}
 			return m
 		}()}
+		c.c18ByMonitor(stream, i, in)
 		if !c.Monitor(stream, i, "terminates", in, !pr.Timeout, "timeout") {
 			return
 		}
@@ -1123,6 +1136,29 @@ func (c *Ctx) c18SibGen(i int, scratch string, canDrop bool) c18SibCase {
 		// a limit that cuts nobody: the largest file fits exactly or with a few bytes to spare
 		cs.Limit = maxGood + Pick(r, []int{0, 0, 1, 2, 4096})
 	}
+	// a third of the cases: the arguments' names are derived from ONE name (ledger.knut, ledger.knut2, ledger.knut.bak,
+	// ledger.knut~, .ledger.knut.tmp, …), the plain name at a random argument position — whatever a command does with
+	// names "like" the file it is working on then meets another file of the same invocation. (Own generator, so that the
+	// files of a case are the ones they were before this was added.)
+	if rn := c.Rng("siblings-names", i); rn.Chance(1, 3) {
+		base := Pick(rn, []string{"ledger.knut", "j.knut", "2023.knut", "journal"})
+		at := rn.Intn(nf)
+		used := map[string]bool{base: true}
+		for k := range cs.Files {
+			if k == at {
+				cs.Files[k].Name = base
+				continue
+			}
+			name := ""
+			for name == "" || used[name] {
+				d := itoa(rn.Intn(Pick(rn, []int{10, 10, 1000, 1000000000})))
+				name = Pick(rn, []string{base + d, base + d, base + "0" + d, base + "." + d, base + ".bak", base + "~", base + ".tmp", "." + base + ".tmp", base + ".orig", base + "-" + d, base[:len(base)-1], "x" + base})
+			}
+			used[name] = true
+			cs.Files[k].Name = name
+		}
+		cs.Place += "/names-of-one"
+	}
 	cs.Procs = Pick(r, []int{1, 1, 1, 2, 2, 16, 16, 0})
 	if cs.Procs > 0 {
 		cs.Env = append(cs.Env, fmt.Sprintf("GOMAXPROCS=%d", cs.Procs))
@@ -1200,7 +1236,7 @@ func (c *Ctx) c18Siblings() {
 		if c.Replay && cs.Procs != 1 {
 			// the outcome may depend on the schedule: a replay repeats the command until a file that should be new is not
 			for rep := 0; rep < 12; rep++ {
-				hit := false
+				hit := len(c18ByLast.Bad) > 0
 				for k, f := range cs.Files {
 					if !cs.faulted(f) && implParts[k] != fieldOf(f.New, f.Mode) {
 						hit = true
@@ -1218,6 +1254,7 @@ func (c *Ctx) c18Siblings() {
 		if cs.AsNobody {
 			in["uid"] = 65534
 		}
+		c.c18ByMonitor("siblings", i, in)
 		if !c.Monitor("siblings", i, "terminates", in, !pr.Timeout, "timeout") {
 			continue
 		}
@@ -1298,6 +1335,272 @@ func (c *Ctx) c18Siblings() {
 			}, "c18mon", old, nw, obs, "1")
 		}
 		c.Monitor("siblings", i, "no stray file", in, len(strays) == 0, strings.Join(strays, ","))
+	}
+}
+
+// ---------------------------------------------------------------- bystanders
+//
+// Every run of every stream (c18Exec) gets BYSTANDERS into its working directory: files, symbolic links and
+// sub-directories that the command was not asked to touch, with names derived from the names on the command line —
+// <target><digits> (the shape of atomic's temp names), <target>.tmp, .<target>.tmp, <target>~, <target>.bak,
+// <target>.123, prefixes and suffixes of the target's name, hidden files, directories named like a temp file — with
+// known contents (a copy of the journal, another journal, bytes that are no journal, nothing) and modes, owned by the
+// user of the command or by somebody else.  After the run, whatever fault was injected and however it ended (ok, error,
+// killed), each of them must be exactly as before: existence, kind, contents, mode (C18_others_untouched: no path other
+// than the target and the fresh temp name changes in any state).  They are then taken away again so that the stream's
+// own observation of the directory (target, stray temp file, the other original files) is what it was without them.
+// (Seeded change C18-j "tidied up" after a failed write by removing every entry named <target><digits>.)
+
+type c18ByEntry struct {
+	Name string
+	Kind string // "file" | "dir" | "link"
+	Mode os.FileMode
+	Data []byte   // file contents, link destination
+	Sub  []string // names inside a directory
+}
+
+type c18BySet struct {
+	Dir     string
+	Entries []c18ByEntry
+}
+
+type c18ByResult struct {
+	Names []string // what was put into the directory
+	Bad   []string // one line per bystander that is not as before
+}
+
+// c18ByLast: the bystanders of the most recent c18Exec (the harness runs its cases one after the other)
+var c18ByLast c18ByResult
+
+const c18ByPred = "C18_others_untouched: every bystander of the directory (files, links and directories named after the target: <target><digits>, <target>.tmp, .<target>.tmp, <target>~, " +
+	"<target>.bak, prefixes, suffixes, hidden names) still exists with its contents and mode, whatever happened to the rewrite"
+
+// c18ByTargets: the file names on the command line (for infer also the training file)
+func c18ByTargets(rn c18Run) []string {
+	var res []string
+	seen := map[string]bool{}
+	for k, a := range rn.Argv {
+		if k == 0 || a == "" || strings.HasPrefix(a, "-") || strings.ContainsRune(a, '/') || seen[a] {
+			continue
+		}
+		seen[a] = true
+		res = append(res, a)
+	}
+	return res
+}
+
+func c18ByHash(rn c18Run) int {
+	h := uint32(2166136261)
+	add := func(s string) {
+		for i := 0; i < len(s); i++ {
+			h = (h ^ uint32(s[i])) * 16777619
+		}
+		h = (h ^ 0xff) * 16777619
+	}
+	for _, a := range rn.Argv {
+		add(a)
+	}
+	for _, a := range rn.Strace {
+		add(a)
+	}
+	for _, a := range rn.Env {
+		add(a)
+	}
+	add(fmt.Sprintf("%d/%o/%v/%d", rn.Limit, rn.DirMode, rn.AsNobody, len(rn.Files)))
+	return int(h & 0x3fffffff)
+}
+
+// c18ByPlant creates the bystanders of one run. Every choice comes from c.Rng("bystanders", hash of the run's command
+// line, faults and limit), so a replayed case meets the same directory.
+func (c *Ctx) c18ByPlant(rn c18Run) *c18BySet {
+	set := &c18BySet{Dir: rn.Dir}
+	if os.Getenv("C18_NO_BYSTANDERS") != "" {
+		return set
+	}
+	targets := c18ByTargets(rn)
+	r := c.Rng("bystanders", c18ByHash(rn))
+	taken := map[string]bool{}
+	for n := range rn.Files {
+		taken[n] = true
+	}
+	for _, t := range targets {
+		taken[t] = true
+	}
+	otherJournal := []byte("2021-03-04 open Assets:Other\n2021-03-04 open Income:Other\n\n2021-03-05   \"bystander\"\nIncome:Other   Assets:Other   7.25   EUR\n")
+	// every target gets a few names of every family of shapes (creating and checking some forty entries per target in each
+	// of several thousand runs would take a minute): two per family, one when there are many files on the command line,
+	// four in the thorough tier
+	per := 2
+	if len(targets) > 2 {
+		per = 1
+	}
+	if c.Thorough() {
+		per *= 2
+	}
+	for _, t := range targets {
+		stem, ext := t, ""
+		if k := strings.LastIndex(t, "."); k > 0 {
+			stem, ext = t[:k], t[k:]
+		}
+		digits := func(n int) string {
+			var b strings.Builder
+			for i := 0; i < n; i++ {
+				b.WriteByte(byte('0' + r.Intn(10)))
+			}
+			return b.String()
+		}
+		families := [][]string{{
+			// the target's name followed by digits: one digit, the length of a temp name, leading zero, very long
+			t + digits(1), t + "2", t + "0", t + digits(r.Range(2, 8)), t + digits(r.Range(9, 10)), t + "0" + digits(3), t + digits(19),
+		}, {
+			// digits in other places, and almost-digits
+			t + "." + digits(3), t + "-" + digits(2), t + "_" + digits(1), t + digits(2) + "a", t + "a" + digits(2), t + " " + digits(1), t + "." + digits(6) + ".tmp",
+			stem + digits(1) + ext, stem + digits(4) + ext, digits(3) + t,
+		}, {
+			// editor / backup / temp spellings
+			t + ".tmp", "." + t + ".tmp", t + "~", "#" + t + "#", t + ".bak", t + ".orig", t + ".swp", "." + t + ".swp", t + ".new", t + ".old", t + ".lock", "tmp" + t, t + ".part",
+		}, {
+			// prefixes and suffixes of the name, other cases
+			t[:len(t)-1], stem, stem + ".", t[1:], "x" + t, t + "x", t + ext, strings.ToUpper(t), stem + ".KNUT", stem + ".knut.knut",
+		}, {
+			// hidden
+			"." + t, "." + stem, ".hidden", "." + t + digits(5),
+		}}
+		var names []string
+		for _, fam := range families {
+			for k := 0; k < per && len(fam) > 0; k++ {
+				j := r.Intn(len(fam))
+				names = append(names, fam[j])
+				fam = append(fam[:j], fam[j+1:]...)
+			}
+		}
+		for _, n := range names {
+			if n == "" || n == "." || n == ".." || taken[n] || strings.ContainsRune(n, '/') {
+				continue
+			}
+			taken[n] = true
+			e := c18ByEntry{Name: n, Kind: "file", Mode: Pick(r, []os.FileMode{0o644, 0o644, 0o600, 0o664, 0o444, 0o400, 0o000, 0o755, 0o666})}
+			switch r.Intn(8) {
+			case 0:
+				e.Kind, e.Mode = "dir", Pick(r, []os.FileMode{0o755, 0o700, 0o777, 0o555})
+			case 1:
+				e.Kind, e.Mode, e.Sub = "dir", Pick(r, []os.FileMode{0o755, 0o700, 0o777}), []string{t, "inner" + digits(2)}
+			case 2:
+				// a symbolic link: to the target itself, to another bystander that may not exist, to nothing
+				e.Kind, e.Data = "link", []byte(Pick(r, []string{t, t + "2", "nowhere", "."}))
+			case 3:
+				if b, ok := rn.Files[t]; ok {
+					e.Data = append([]byte{}, b...) // a copy of the journal (ledger.knut2 next to ledger.knut)
+				}
+			case 4:
+				e.Data = otherJournal
+			case 5:
+				e.Data = nil
+			case 6:
+				e.Data = []byte(strings.Repeat(Pick(r, []string{"\x00\xff", "not a journal\n", "2020-13-45 ???\n"}), r.Range(1, 3000)))
+			default:
+				e.Data = []byte(fmt.Sprintf("bystander %s of %s\n", n, t))
+			}
+			p := filepath.Join(rn.Dir, n)
+			var err error
+			switch e.Kind {
+			case "dir":
+				err = os.Mkdir(p, 0o755)
+				for _, s := range e.Sub {
+					os.WriteFile(filepath.Join(p, s), []byte("inside "+n+"\n"), 0o644)
+				}
+			case "link":
+				err = os.Symlink(string(e.Data), p)
+			default:
+				err = os.WriteFile(p, e.Data, 0o644)
+			}
+			if err != nil {
+				continue
+			}
+			// owned by the user of the command (who may then do with it what he likes) or by root
+			if rn.AsNobody && r.Chance(1, 2) {
+				os.Lchown(p, 65534, 65534)
+				for _, s := range e.Sub {
+					os.Lchown(filepath.Join(p, s), 65534, 65534)
+				}
+			}
+			if e.Kind != "link" {
+				os.Chmod(p, e.Mode)
+			}
+			set.Entries = append(set.Entries, e)
+		}
+	}
+	return set
+}
+
+// verifyAndRemove compares every bystander with what was planted and takes it out of the directory again.
+func (s *c18BySet) verifyAndRemove() c18ByResult {
+	var res c18ByResult
+	for _, e := range s.Entries {
+		res.Names = append(res.Names, e.Name)
+		p := filepath.Join(s.Dir, e.Name)
+		bad := func(format string, a ...any) {
+			res.Bad = append(res.Bad, fmt.Sprintf("%s (%s, mode %o, %d bytes): ", e.Name, e.Kind, e.Mode, len(e.Data))+fmt.Sprintf(format, a...))
+		}
+		st, err := os.Lstat(p)
+		switch {
+		case err != nil:
+			bad("no longer there")
+		case e.Kind == "link":
+			if st.Mode()&os.ModeSymlink == 0 {
+				bad("no longer a symbolic link (%v)", st.Mode())
+			} else if d, _ := os.Readlink(p); d != string(e.Data) {
+				bad("points to %q, before: %q", d, string(e.Data))
+			}
+		case e.Kind == "dir":
+			if !st.IsDir() {
+				bad("no longer a directory (%v)", st.Mode())
+				break
+			}
+			if st.Mode().Perm() != e.Mode {
+				bad("mode %o", st.Mode().Perm())
+			}
+			os.Chmod(p, 0o755)
+			ents, _ := os.ReadDir(p)
+			var in []string
+			for _, x := range ents {
+				in = append(in, x.Name())
+			}
+			want := append([]string{}, e.Sub...)
+			sort.Strings(want)
+			if strings.Join(in, ",") != strings.Join(want, ",") {
+				bad("contains [%s], before: [%s]", strings.Join(in, ","), strings.Join(want, ","))
+			}
+		default:
+			if !st.Mode().IsRegular() {
+				bad("no longer a regular file (%v)", st.Mode())
+				break
+			}
+			if st.Mode().Perm() != e.Mode {
+				bad("mode %o", st.Mode().Perm())
+			}
+			if b, err := os.ReadFile(p); err != nil {
+				bad("unreadable: %v", err)
+			} else if string(b) != string(e.Data) {
+				bad("contents changed: %d bytes %s", len(b), clip(string(b)))
+			}
+		}
+		if e.Kind == "dir" {
+			os.Chmod(p, 0o755)
+		}
+		os.RemoveAll(p)
+	}
+	sort.Strings(res.Names)
+	return res
+}
+
+// c18ByMonitor states the property on the bystanders of the run that just ended.
+func (c *Ctx) c18ByMonitor(stream string, idx int, in map[string]any) {
+	by := c18ByLast
+	in["bystanders"] = strings.Join(by.Names, " | ")
+	c.Monitor(stream, idx, c18ByPred, in, len(by.Bad) == 0, fmt.Sprintf("%d of %d bystanders: %s", len(by.Bad), len(by.Names), strings.Join(by.Bad, "; ")))
+	if len(by.Names) > 0 {
+		c.Tag("bystanders")
 	}
 }
 
